@@ -68,12 +68,13 @@ static inline double K_max_double(double a, double b) { return a < b ? b : a; }
    the scale stays 0 only for data that convert_range may write as all zeros. */
 #define CONTRACT_K_find_scale_factor                                                                                 \
   __CPROVER_requires(__CPROVER_is_fresh(scale_factor, sizeof(float)) && FINITE_F(mx) && FINITE_F(mn) && mn <= mx && DOMAIN(mx, mn)) \
-  __CPROVER_requires(*scale_factor == 0)                                                                               \
+  /* incoming factor: 0 (automatic) or a preferred positive factor ('scale_to_write_data'); it may only be increased */ \
+  __CPROVER_requires(*scale_factor >= 0 && *scale_factor <= FLT_MAX)                                                   \
   __CPROVER_assigns(*scale_factor)                                                                                     \
-  __CPROVER_ensures(FINITE_F(*scale_factor))                                                                           \
+  __CPROVER_ensures(FINITE_F(*scale_factor) && (__CPROVER_old(*scale_factor) > 0 ==> *scale_factor >= __CPROVER_old(*scale_factor))) \
   /* factor 0 = 'everything is written as 0': only if that is what every element becomes (unsigned output truncates negatives) */ \
   __CPROVER_ensures(*scale_factor == 0 ==> (OUT_SIGNED ? (mx == 0 && mn == 0) : mx <= 0))                              \
-  __CPROVER_ensures(*scale_factor > 0 ==> (FITS(mx, *scale_factor) && (OUT_SIGNED ? FITS(mn, *scale_factor) : 1)))      \
+  __CPROVER_ensures(*scale_factor > 0 ==> (OUT_SIGNED ? (FITS(mx, *scale_factor) && FITS(mn, *scale_factor)) : (mx < 0 || FITS(mx, *scale_factor)))) \
   /* all data negative and unsigned output: the factor is negative and everything is written as 0 */                  \
   __CPROVER_ensures(*scale_factor < 0 ==> (!OUT_SIGNED && mx < 0))
 
